@@ -1263,5 +1263,20 @@ pub fn replay(r: &Value) -> Vec<Violation> {
             Err(m) => vec![v("C09:permission-history", format!("history [{}]: {m}", hist_describe(&h, &recs)), r.clone())],
         };
     }
+    if r["kind"] == "perm23" {
+        // the table the case belongs to is run again (all record slices of its target, or the unauthenticated part)
+        // and the violations of the same operation are reported
+        let mut res = JobResult::default();
+        if r.get("record").is_some() {
+            let ti = WIRE_TARGETS.iter().position(|(s, t)| Some(*s as u64) == r["stream"].as_u64() && Some(*t as u64) == r["topic"].as_u64()).unwrap_or(0);
+            for slice in 0..WIRE_SLICES {
+                let pj = PermJob { part: 3, shard: (slice * WIRE_TARGETS.len() + ti) as u16, shards: (WIRE_TARGETS.len() * WIRE_SLICES) as u16, full: true };
+                part23(&pj, &mut res);
+            }
+        } else {
+            part23(&PermJob { part: 2, shard: 0, shards: 1, full: true }, &mut res);
+        }
+        return res.violations.into_iter().filter(|x| x.replay["op"] == r["op"]).collect();
+    }
     Vec::new()
 }
